@@ -729,16 +729,17 @@ def run_c13(ck, ctx):
     ck.corr['run_frames']['disagreements'] = len(dis)
     report_dis(ck, 'run_frames', dis)
     # hit-content independence on the implementation: same skeleton, re-randomised hits
-    for si in range(8 if tier == 'quick' else 200):
+    for si in range(24 if tier == 'quick' else 400):
         kind = R.choice(['IB', 'OL'])
         ids = [0x20, 0x21, 0x22] if kind == 'IB' else G.OL_IDS[:14]
         flags = [R.choice([0, 1, 2, 4, 8, 12, 14]) for _ in range(14 * 7)]
         outs = []
         for rep in range(2):
             spec = []
+            adv = rep == 1      # second rendering: hit bytes that look like control words / padding (0x00, 0xB., 0xA., 0xE., 0xF0, 0xFF)
             for j, i in enumerate(ids):
-                if kind == 'IB': b = G.alp_chip(R, i & 0xF, 9, 14, flags=flags[j])
-                else: b = b''.join(G.alp_chip(R, c, 9, 4, flags=flags[j * 7 + c]) for c in range(7))
+                if kind == 'IB': b = G.alp_chip(R, i & 0xF, 9, 30 if adv else 14, flags=flags[j], adv=adv)
+                else: b = b''.join(G.alp_chip(R, c, 9, 8 if adv else 4, flags=flags[j * 7 + c], adv=adv) for c in range(7))
                 spec.append((i, b))
             r = L.run_cli(['check', 'all', 'its-stave'], G.encode(build_frame_stream(R, kind, spec)))
             outs.append((sorted(e[1] for e in r.errors), json.dumps(r.stats['alpide_stats'], sort_keys=True) if r.stats else None))
